@@ -359,6 +359,74 @@ pub fn run(ctx: &Ctx) -> Report {
   check_hash(&mut rep, &mut orc, &mut rng, ctx.thorough);
   check_builders(&mut rep, &mut orc, &mut rng, ctx.n(6_000, 150_000));
   check_rejections(&mut rep, &mut rng);
+  cli_from_checks(&mut rep, &mut rng);
   rep.notes.push(format!("oracle calls: {}", orc.calls));
   rep
+}
+
+/// `moc from freqval|timestamp <depth> <list> fits <out>` (the tool narrows the index width of the file to the
+/// smallest one that can hold the depth): the file decoded in the 64-bit frame must be the MOC the library
+/// builds from the same values at that depth, whatever the width chosen
+fn cli_from_checks(rep: &mut Report, rng: &mut Rng) {
+  use moc::moc::RangeMOCIterator;
+  let bin = match std::env::var("VERIF_BIN_DIR") {
+    Ok(b) => std::path::PathBuf::from(b).join("moc"),
+    Err(_) => return,
+  };
+  if !bin.exists() {
+    rep.count("cli:not-built");
+    return;
+  }
+  let scratch = std::env::var("VERIF_SCRATCH").unwrap_or_else(|_| std::env::temp_dir().display().to_string());
+  let _ = std::fs::create_dir_all(&scratch);
+  let (inp, out) = (format!("{}/c18_list.txt", scratch), format!("{}/c18_out.fits", scratch));
+  let freqs = [1.35e9f64, 2.4e9, 1.0e3, 5.0e14, 1.0e-9, 7.7e20];
+  for d in [0u8, 5, 10, 11, 12, 13, 14, 26, 27, 28, 29, 30, 45, 59] {
+    let vals: Vec<f64> = (0..3).map(|_| *rng.pick(&freqs)).collect();
+    let _ = std::fs::remove_file(&out);
+    std::fs::write(&inp, vals.iter().map(|v| format!("{:e}\n", v)).collect::<String>()).unwrap();
+    let res = std::process::Command::new(&bin).args(["from", "freqval", &d.to_string(), &inp, "fits", &out]).output();
+    rep.evaluations += 1;
+    rep.count("cli:from-freqval");
+    let exp = RangeMOC::<u64, Frequency<u64>>::from_freq_in_hz(d, vals.iter().cloned(), None);
+    let expr: Vec<(u64, u64)> = exp.moc_ranges().iter().map(|r| (r.start, r.end)).collect();
+    let case = format!("CLI from freqval depth={} values={:?}", d, vals);
+    match res {
+      Ok(o) => {
+        let got = crate::c19::decode_out(Q::F, "fits", std::path::Path::new(&out));
+        match got {
+          Ok((_, gd, gr)) if o.status.success() => {
+            if gd != d || gr != expr {
+              rep.violation("`moc from freqval` writes a file that does not decode to the F-MOC of the values at that depth", &case, &format!("depth {} {}", gd, ranges_str(&gr)), &format!("depth {} {}", d, ranges_str(&expr)), "C18 (frequency MOC from values; a narrower index width covers the same physical interval)");
+            }
+          }
+          other => rep.violation("`moc from freqval` fails on in-range values", &case, &format!("exit {:?} {:?}", o.status.code(), other.map(|x| x.1)), "Ok", "C18"),
+        }
+      }
+      Err(e) => rep.notes.push(format!("moc could not be run: {}", e)),
+    }
+  }
+  for d in [0u8, 7, 13, 14, 15, 29, 30, 31, 47, 61] {
+    let sh = 61 - d as u32;
+    let vals: Vec<u64> = (0..3).map(|_| (rng.below(1u64 << 20) << sh.min(40)) + rng.below(1000)).collect();
+    let _ = std::fs::remove_file(&out);
+    std::fs::write(&inp, vals.iter().map(|v| format!("{}\n", v)).collect::<String>()).unwrap();
+    let res = std::process::Command::new(&bin).args(["from", "timestamp", "--time-type", "usec", &d.to_string(), &inp, "fits", &out]).output();
+    rep.evaluations += 1;
+    rep.count("cli:from-timestamp");
+    let exp = RangeMOC::<u64, Time<u64>>::from_microsec_since_jd0(d, vals.iter().cloned(), None);
+    let expr: Vec<(u64, u64)> = exp.moc_ranges().iter().map(|r| (r.start, r.end)).collect();
+    let case = format!("CLI from timestamp depth={} values={:?}", d, vals);
+    match res {
+      Ok(o) => match crate::c19::decode_out(Q::T, "fits", std::path::Path::new(&out)) {
+        Ok((_, gd, gr)) if o.status.success() => {
+          if gd != d || gr != expr {
+            rep.violation("`moc from timestamp` writes a file that does not decode to the T-MOC of the instants at that depth", &case, &format!("depth {} {}", gd, ranges_str(&gr)), &format!("depth {} {}", d, ranges_str(&expr)), "C18 (time MOC from microseconds, every index width)");
+          }
+        }
+        other => rep.violation("`moc from timestamp` fails on valid instants", &case, &format!("exit {:?} {:?}", o.status.code(), other.map(|x| x.1)), "Ok", "C18"),
+      },
+      Err(e) => rep.notes.push(format!("moc could not be run: {}", e)),
+    }
+  }
 }
